@@ -174,10 +174,10 @@ static inline double ll2c_bits_f64(u64 u) {
 
 #ifdef LL2C_CBMC
 /* multiplication is abstracted as a COMMUTATIVE uninterpreted function (operands ordered by bit pattern) */
-static inline float ll2c_uf_fmul_f32(float a, float b) { return ll2c_f32_bits(a) <= ll2c_f32_bits(b) ? __CPROVER_uninterpreted_fmul_f32(a, b) : __CPROVER_uninterpreted_fmul_f32(b, a); }
-static inline double ll2c_uf_fmul_f64(double a, double b) { return ll2c_f64_bits(a) <= ll2c_f64_bits(b) ? __CPROVER_uninterpreted_fmul_f64(a, b) : __CPROVER_uninterpreted_fmul_f64(b, a); }
-static inline float ll2c_uf_fadd_f32(float a, float b) { return ll2c_f32_bits(a) <= ll2c_f32_bits(b) ? __CPROVER_uninterpreted_fadd_f32(a, b) : __CPROVER_uninterpreted_fadd_f32(b, a); }
-static inline double ll2c_uf_fadd_f64(double a, double b) { return ll2c_f64_bits(a) <= ll2c_f64_bits(b) ? __CPROVER_uninterpreted_fadd_f64(a, b) : __CPROVER_uninterpreted_fadd_f64(b, a); }
+static inline float ll2c_uf_fmul_f32(float a, float b) { int le = ll2c_f32_bits(a) <= ll2c_f32_bits(b); float lo = le ? a : b, hi = le ? b : a; return __CPROVER_uninterpreted_fmul_f32(lo, hi); }
+static inline double ll2c_uf_fmul_f64(double a, double b) { int le = ll2c_f64_bits(a) <= ll2c_f64_bits(b); double lo = le ? a : b, hi = le ? b : a; return __CPROVER_uninterpreted_fmul_f64(lo, hi); }
+static inline float ll2c_uf_fadd_f32(float a, float b) { int le = ll2c_f32_bits(a) <= ll2c_f32_bits(b); float lo = le ? a : b, hi = le ? b : a; return __CPROVER_uninterpreted_fadd_f32(lo, hi); }
+static inline double ll2c_uf_fadd_f64(double a, double b) { int le = ll2c_f64_bits(a) <= ll2c_f64_bits(b); double lo = le ? a : b, hi = le ? b : a; return __CPROVER_uninterpreted_fadd_f64(lo, hi); }
 static inline float ll2c_uf_fsub_f32(float a, float b) { return __CPROVER_uninterpreted_fsub_f32(a, b); }
 static inline double ll2c_uf_fsub_f64(double a, double b) { return __CPROVER_uninterpreted_fsub_f64(a, b); }
 static inline float ll2c_uf_fdiv_f32(float a, float b) { return __CPROVER_uninterpreted_fdiv_f32(a, b); }
